@@ -173,10 +173,24 @@ def item_start_with_attrs(s, idx):
 
 
 def item_end(s, mask, idx):
-    """end of the item whose header starts at idx: first code ';' or matching '}' of first code '{'"""
+    """end of the item whose header starts at idx: first code ';' or matching '}' of first code '{'
+    (const / static items: the first ';' outside every bracket -- their initialiser may contain blocks)"""
     i = idx
     n = len(s)
     depth_paren = 0
+    if re.match(r"(?:pub(?:\([a-z]+\))?\s+)?(?:const|static)\s+[A-Za-z_]", s[idx:idx + 40]) and not re.match(r"(?:pub(?:\([a-z]+\))?\s+)?const\s+(?:async\s+)?(?:unsafe\s+)?fn\b", s[idx:idx + 60]):
+        depth = 0
+        while i < n:
+            if mask[i]:
+                c = s[i]
+                if c in '([{':
+                    depth += 1
+                elif c in ')]}':
+                    depth -= 1
+                elif c == ';' and depth == 0:
+                    return i + 1
+            i += 1
+        raise LostAnchor("item end not found")
     while i < n:
         if mask[i]:
             c = s[i]
@@ -340,11 +354,25 @@ def run_job(job, repo, outdir, info):
                     t = re.sub(rx, repl, t, count=1)
                 parts.append(t + "\n")
                 info["slices"].append(dict(src=job["src"], item=f"{kind} {name}", bytes=[a, b], sha256=sha(s[a:b])))
+        # module-level constants of primitive type that the listed items may (come to) use are sliced automatically: a change that
+        # introduces `const RETRIES: usize = 3;` next to a sliced function must be decided, not end in a compile error (= undecided)
+        listed = {it["name"] for it in job["items"] if it["kind"] == "const"}
+        auto = []
+        _types = "usize|u8|u16|u32|u64|u128|isize|i8|i16|i32|i64|bool|&'static\\s+str|&str" + "".join("|" + t for t in job.get("auto_const_types", []))
+        for m in re.finditer(r"(?m)^(?:pub(?:\([a-z]+\))?\s+)?const\s+([A-Z][A-Z0-9_]*)\s*:\s*(" + _types + r")\s*=", s):
+            if not mask[m.start()] or m.group(1) in listed:
+                continue
+            a = item_start_with_attrs(s, m.start())
+            b = item_end(s, mask, m.start())
+            auto.append(s[a:b] + "\n")
+            info["slices"].append(dict(src=job["src"], item=f"const {m.group(1)} (auto: module-level primitive constant)", bytes=[a, b], sha256=sha(s[a:b])))
+        # tracing macros are no-ops everywhere (a prelude may shadow these with its own definitions)
+        shim = "".join(f"#[allow(unused_macros)]\nmacro_rules! {n} {{ ($($t:tt)*) => {{}}; }}\n" for n in ("trace", "debug", "info", "warn", "error"))
         prelude = ""
         if job.get("prelude"):
             prelude = open(job["prelude"]).read()
             header.append(f"// prelude: {job['prelude']}")
-        out = header + [prelude] + parts + job.get("append", [])
+        out = header + [shim, prelude] + auto + parts + job.get("append", [])
     else:
         raise ValueError(job["mode"])
     os.makedirs(outdir, exist_ok=True)
